@@ -174,6 +174,27 @@ Proof.
   destruct (IH g2) as (g3 & E5 & L3); [intros i' Hi'; rewrite L2, L1; apply H; now right|]. exists g3. split; [exact E5|lia].
 Qed.
 
+Lemma gamma_row_ok sigma gamma i : forall js acc, (forall j, In j js -> i - j < length sigma /\ j < length gamma) ->
+  exists r, gamma_row sigma gamma i js acc = Ok r.
+Proof.
+  induction js as [|j r IH]; intros acc H; cbn [gamma_row]; [eexists; reflexivity|].
+  destruct (H j (or_introl eq_refl)) as [J1 J2].
+  destruct (nth_ok_ok sigma (i - j) J1) as (sg & E1). rewrite E1. cbn [bind].
+  destruct (nth_ok_ok gamma j J2) as (gj & E2). rewrite E2. cbn [bind].
+  apply IH. intros j' Hj. apply H. now right.
+Qed.
+
+Lemma gamma_check_safe sigma gamma gamma0 : forall is_,
+  (forall i, In i is_ -> i < length sigma /\ i < length gamma /\ i < length gamma0) -> safe (gamma_check sigma gamma gamma0 is_).
+Proof.
+  induction is_ as [|i r IH]; intros H; cbn [gamma_check]; [apply safe_ok|].
+  destruct (H i (or_introl eq_refl)) as (I1 & I2 & I3).
+  destruct (gamma_row_ok sigma gamma i (seq 0 (i + 1)) 0%N) as (row & E1).
+  { intros j Hj. apply in_seq in Hj. lia. }
+  rewrite E1. cbn [bind]. destruct (nth_ok_ok gamma0 i I3) as (tg & E2). rewrite E2. cbn [bind].
+  destruct (N.eqb row tg); [apply IH; intros i' Hi; apply H; now right|intros p [= <-]; reflexivity].
+Qed.
+
 Lemma upd_w_ok w m v : forall igs tmp, length tmp = m + v + 1 -> (forall i g, In (i, g) igs -> i <= m) ->
   exists tmp', upd_w tmp w m v igs = Ok tmp' /\ length tmp' = m + v + 1.
 Proof.
@@ -241,6 +262,9 @@ Proof.
     destruct (gamma_outer_ok sg srest Hsg (seq 0 (m + 1)) gamma0) as (gamma & E9 & L9).
     { intros i Hi. apply in_seq in Hi. rewrite L8, L4, !seq_length. lia. }
     rewrite E9. cbn [bind].
+    apply safe_bind.
+    { apply gamma_check_safe. intros i Hi. apply in_seq in Hi. cbn [length]. rewrite L9, L8, L4, !seq_length. lia. }
+    intros _ _.
     destruct (upd_w_ok w m v (combine (seq 0 (length gamma)) gamma) (resize tmp1 (m + v + 1))) as (tmp3 & E10 & L10).
     { apply resize_length. }
     { intros i g Hi. apply in_combine_seq in Hi. rewrite L9, L8, seq_length in Hi. lia. }
@@ -311,6 +335,7 @@ Proof.
     match type of H with (let* _ := ?X in _) = _ => destruct X as [y2| |] end; cbn [bind] in H; try discriminate.
     match type of H with (let* _ := ?X in _) = _ => destruct X as [gamma0| |] end; cbn [bind] in H; try discriminate.
     match type of H with (let* _ := ?X in _) = _ => destruct X as [gamma| |] end; cbn [bind] in H; try discriminate.
+    match type of H with (let* _ := ?X in _) = _ => destruct X as [[]| |] end; cbn [bind] in H; try discriminate.
     match type of H with (let* _ := ?X in _) = _ => destruct X as [tmp3| |] end; cbn [bind] in H; try discriminate.
     match type of H with (let* _ := ld_debug_check syn ?S' in _) = _ => set (s1 := S') in *; destruct (ld_debug_check syn s1) as [[]| |] end;
       cbn [bind] in H; try discriminate.
